@@ -182,7 +182,7 @@ func init() {
 	})
 	addProp(&PropSpec{
 		ID:          "C02",
-		Rules:       []string{"R-ESC", "R-PAREN", "R-OPPAREN", "R-PREC", "R-VOCAB", "R-OPTOKENS", "R-MARSHAL", "R-PARSE-RESULT", "R-RUNEWRITE", "R-RUNESTEP", "R-RUNEERR", "R-UNMARSHAL-ID", "R-FMTCONST"},
+		Rules:       []string{"R-ESC", "R-PAREN", "R-OPPAREN", "R-PREC", "R-VOCAB", "R-OPTOKENS", "R-MARSHAL", "R-PARSE-RESULT", "R-RUNEWRITE", "R-RUNESTEP", "R-RUNEERR", "R-UNMARSHAL-ID", "R-FMTCONST", "R-NUMCLASS"},
 		Explanation: "Necessary conditions of Parse(p.String()) = p that are visible in the shape of the printer and the lexer: every escape the printer can emit is decoded to the same code point; printed keywords lead back to the same constants; the printer's priorities equal the grammar's precedence levels; a node that can only carry an accessor chain inside parentheses prints those parentheses; the three marshalling forms are exactly String() and the unmarshalling forms hand their whole input to Parse.",
 		Decided: []string{"R-ESC: printer escape table ⊆ lexer escape table with equal meaning", "R-PAREN: parenthesisation before a trailing accessor chain (today: 6 known findings, D16)", "R-PREC: priority table = grammar levels",
 			"R-VOCAB: keyword vocabulary", "R-MARSHAL / R-PARSE-RESULT: Marshal* = String(), Unmarshal*/Scan = Parse of the whole input"},
